@@ -653,3 +653,128 @@ Section JacobiLoop.
     rewrite E. reflexivity.
   Qed.
 End JacobiLoop.
+
+(* ------------------------------------------------------------------ Jacobi loop: the fuel suffices *)
+
+Lemma jacobi_loop_step f a b ret : 0 < a ->
+  exists a1 ret', 0 < a1 <= a /\ Z.odd a1 = true /\
+    jacobi_loop (S f) a b ret = jacobi_loop f (b mod a1) a1 ret'.
+Proof.
+  intros Ha. cbn [jacobi_loop].
+  assert (E : (a =? 0) = false) by (apply Z.eqb_neq; lia). rewrite E.
+  pose proof (strip2_spec (Z.to_nat (Z.log2 a + 1)) a 0 Ha) as Hs.
+  assert (Hfu : Z.log2 a < Z.of_nat (Z.to_nat (Z.log2 a + 1))).
+  { pose proof (Z.log2_nonneg a). lia. }
+  specialize (Hs Hfu).
+  destruct (strip2 (Z.to_nat (Z.log2 a + 1)) a 0) as [a1 i].
+  destruct Hs as (Ha1 & Hoa1 & Hi & Hfact). rewrite Z.sub_0_r in Hfact.
+  exists a1. eexists. split; [|split; [exact Hoa1|reflexivity]].
+  assert (1 <= 2 ^ i) by (pose proof (Z.pow_pos_nonneg 2 i ltac:(lia) Hi); lia).
+  nia.
+Qed.
+
+Lemma jacobi_loop_terminates : forall (n fuel : nat) a b ret,
+  (2 * n + 1 <= fuel)%nat -> 0 <= a < 2 ^ Z.of_nat n ->
+  exists r, jacobi_loop fuel a b ret = Some r.
+Proof.
+  induction n as [|n IH]; intros fuel a b ret Hf Ha.
+  - destruct fuel as [|f]; [lia|]. assert (a = 0) by (cbn in Ha; lia). subst a.
+    cbn [jacobi_loop]. cbn. eexists; reflexivity.
+  - destruct fuel as [|f]; [lia|].
+    destruct (Z.eq_dec a 0) as [->|Hne].
+    { cbn [jacobi_loop]. cbn. eexists; reflexivity. }
+    destruct (jacobi_loop_step f a b ret ltac:(lia)) as (a1 & ret1 & Hb1 & Ho1 & E1). rewrite E1.
+    destruct f as [|f]; [lia|].
+    pose proof (Z.mod_pos_bound b a1 ltac:(lia)) as Hm1.
+    destruct (Z.eq_dec (b mod a1) 0) as [Hz|Hnz].
+    { rewrite Hz. cbn [jacobi_loop]. cbn. eexists; reflexivity. }
+    destruct (jacobi_loop_step f (b mod a1) a1 ret1 ltac:(lia)) as (a2 & ret2 & Hb2 & Ho2 & E2). rewrite E2.
+    apply IH; [lia|].
+    pose proof (Z.mod_pos_bound a1 a2 ltac:(lia)) as Hm2.
+    pose proof (Z.div_mod a1 a2 ltac:(lia)) as Hdm.
+    assert (1 <= a1 / a2) by (apply Z.div_le_lower_bound; lia).
+    rewrite Nat2Z.inj_succ, Z.pow_succ_r in Ha by lia.
+    split; [lia|]. nia.
+Qed.
+
+(* nt.Jacobi returns a value for every odd positive y (the model's logarithmic
+   fuel is never exhausted) *)
+Lemma jacobi_total x y : 0 < y -> Z.odd y = true -> exists j, jacobi x y = Some j.
+Proof.
+  intros Hy Ho. unfold jacobi.
+  assert (E : (y <=? 0) || Z.even y = false).
+  { apply orb_false_iff. split; [apply Z.leb_gt; exact Hy|rewrite <- Z.negb_odd, Ho; reflexivity]. }
+  rewrite E.
+  set (a := if x <? 0 then x mod y else x).
+  assert (Ha : 0 <= a).
+  { unfold a. destruct (x <? 0) eqn:L; [apply Z.mod_pos_bound; exact Hy|apply Z.ltb_ge in L; exact L]. }
+  set (L := Z.log2_up (Z.max (Z.max a y) 1)).
+  assert (HL : 0 <= L) by apply Z.log2_up_nonneg.
+  apply (jacobi_loop_terminates (Z.to_nat (L + 1))).
+  - unfold jacobi_fuel. fold L. lia.
+  - rewrite Z2Nat.id by lia. split; [exact Ha|].
+    assert (Hle : Z.max (Z.max a y) 1 <= 2 ^ L).
+    { destruct (Z.eq_dec (Z.max (Z.max a y) 1) 1) as [E1|E1].
+      - rewrite E1. pose proof (Z.pow_pos_nonneg 2 L ltac:(lia) HL). lia.
+      - apply Z.log2_up_spec. lia. }
+    rewrite Z.pow_add_r by lia. change (2 ^ 1) with 2. lia.
+Qed.
+
+(* ------------------------------------------------------------------ division conventions, rationals *)
+
+(* EuclideanDiv (numct.Int, num.Int, num.Nat): remainder always in [0, |d|) *)
+Lemma eucdiv_spec a d : d <> 0 ->
+  a = d * ZEuclid.div a d + ZEuclid.modulo a d /\ 0 <= ZEuclid.modulo a d < Z.abs d.
+Proof.
+  intros Hd. split; [apply ZEuclid.div_mod; exact Hd|apply ZEuclid.mod_always_pos; exact Hd].
+Qed.
+
+Lemma eucdiv_unique a d q r : d <> 0 -> a = d * q + r -> 0 <= r < Z.abs d ->
+  q = ZEuclid.div a d /\ r = ZEuclid.modulo a d.
+Proof.
+  intros Hd E Hr.
+  destruct (eucdiv_spec a d Hd) as [E' Hr'].
+  set (q' := ZEuclid.div a d) in *. set (r' := ZEuclid.modulo a d) in *.
+  assert (Hq : q = q') by nia.
+  split; [exact Hq|]. subst q. lia.
+Qed.
+
+(* Div (numct.Int.Div / DivVarTime): truncated towards zero, remainder has the
+   sign of the numerator *)
+Lemma truncdiv_spec a d : d <> 0 ->
+  a = d * Z.quot a d + Z.rem a d /\ Z.abs (Z.rem a d) < Z.abs d /\ 0 <= Z.rem a d * a.
+Proof.
+  intros Hd. split; [apply Z.quot_rem'|]. split; [apply Z.rem_bound_abs; exact Hd|].
+  apply Z.rem_sign_mul. exact Hd.
+Qed.
+
+(* num.Rat canonical form: positive denominator, lowest terms, same value *)
+Lemma rat_canon_spec a b : b <> 0 ->
+  let '(n, d) := rat_canon a b in 0 < d /\ Z.gcd n d = 1 /\ n * b = a * d.
+Proof.
+  intros Hb. unfold rat_canon.
+  pose proof (Z.gcd_nonneg a b) as Hg0.
+  destruct (Z.gcd a b =? 0) eqn:E.
+  - apply Z.eqb_eq in E. apply Z.gcd_eq_0_r in E. contradiction.
+  - apply Z.eqb_neq in E.
+    set (g := Z.gcd a b) in *.
+    assert (Hg : 0 < g) by lia.
+    destruct (Z.gcd_divide_l a b) as [a' Ha]. destruct (Z.gcd_divide_r a b) as [b' Hb'].
+    fold g in Ha, Hb'.
+    assert (Ea : a / g = a') by (rewrite Ha; apply Z.div_mul; lia).
+    assert (Eb : b / g = b') by (rewrite Hb'; apply Z.div_mul; lia).
+    assert (Hcop : Z.gcd a' b' = 1).
+    { rewrite <- Ea, <- Eb. apply Z.gcd_div_gcd; [lia|reflexivity]. }
+    rewrite Ea, Eb.
+    assert (Hb0 : b' <> 0) by (intros ->; lia).
+    destruct (b <? 0) eqn:S.
+    + apply Z.ltb_lt in S. assert (b' < 0) by nia.
+      split; [lia|]. split.
+      * replace (-1 * a') with (- a') by ring. replace (-1 * b') with (- b') by ring.
+        rewrite Z.gcd_opp_l, Z.gcd_opp_r. exact Hcop.
+      * rewrite Ha at 2. rewrite Hb' at 1. ring.
+    + apply Z.ltb_ge in S. assert (0 < b') by nia.
+      split; [lia|]. split.
+      * rewrite !Z.mul_1_l. exact Hcop.
+      * rewrite Ha at 2. rewrite Hb' at 1. ring.
+Qed.
